@@ -46,6 +46,21 @@ class RH(NumpyHooks):
                 def fill(v):
                     obj.items[:] = [v] * len(obj.items)
                 return Builtin('fill', fill)
+            if name in ('any', 'all'):
+                # data-dependent tests: a symbolic entry is generic (not
+                # zero), a constant entry is what it is - the special
+                # inputs of R2s make these tests take their other branch
+                def anyall(*a, **k):
+                    nz = []
+                    for v in obj.items:
+                        if v is None:
+                            raise Undecided('truth value of an unwritten '
+                                            'entry')
+                        r = to_rat(v)
+                        nz.append(not r.is_zero() if not r.is_const()
+                                  else r.constant() != 0)
+                    return any(nz) if name == 'any' else all(nz)
+                return Builtin(name, anyall)
         if obj is NPV:
             if name == 'can_cast':
                 return Builtin('np.can_cast', lambda *a, **k: True)
@@ -118,6 +133,33 @@ class RInterp(Interp):
             elif len(r.items) == 1:
                 r = SArr(r.items * len(l.items))
         return Interp.binop(self, op, l, r)
+
+
+def special(model, n_in, n_out, offset, mode, direction, xs, pad_const=0):
+    """resize_array on a concrete 1-d input: list of Fractions."""
+    fn = model.ctx.func(NUM, 'resize_array')
+    x = SArr([Rat.const(v) for v in xs])
+
+    def once(assume):
+        I = RInterp(model, assume, RH())
+        return I.call_func(Func(fn, I.env_of(NUM), None), [x, (n_out,)],
+                           {'offset': [offset], 'pad_mode': mode,
+                            'pad_const': pad_const, 'direction': direction})
+    leaves = explore(once, limit=10)
+    if len(leaves) != 1:
+        raise Undecided('%d paths' % len(leaves))
+    out = []
+    for v in leaves[0][1].items:
+        if v is None:
+            raise Undecided('output entry never written')
+        r = to_rat(v)
+        if not r.is_const():
+            raise Undecided('non-constant entry %r' % (r,))
+        out.append(r.constant())
+    if [to_rat(v).constant() for v in x.items] != [Fr(v) for v in xs]:
+        return out, 'the input array was modified: %s' % [
+            str(to_rat(v)) for v in x.items]
+    return out, None
 
 
 def matrix(model, n_in, n_out, offset, mode, direction, pad_const=0):
@@ -345,6 +387,56 @@ def check(ctx):
     except (Undecided, PyRaise) as e:
         rep.undecided('R2', 'resize_array[constant]:pad_const', str(e), NUM,
                       fn.lineno)
+    # R2s: the matrices above were extracted at a generic input; at special
+    # inputs (zero, constant, one-hot) every data-dependent shortcut takes
+    # its other branch and the result must still be the affine map
+    n_sp = 0
+    for mode in modes:
+        bad = None
+        for n_in, n_out, off in ((2, 5, 1), (3, 5, 2), (3, 4, 0), (5, 2, 1),
+                                 (4, 3, 0)):
+            if not admissible(n_in, n_out, off, mode):
+                continue
+            for direction in ('forward', 'adjoint'):
+                ni, no = (n_in, n_out) if direction == 'forward' else (
+                    n_out, n_in)
+                for pc in ((0, 7) if mode == 'constant' and
+                           direction == 'forward' else (0,)):
+                    Mr, cr = reference(n_in, n_out, off, mode, pc)
+                    if direction == 'adjoint':
+                        Mr = [list(r) for r in zip(*Mr)]
+                        cr = [Fr(0)] * len(Mr)
+                    inputs = [[0] * ni, [1] * ni, [3] * ni] + [
+                        [int(i == k) for i in range(ni)] for k in range(ni)]
+                    for xs in inputs:
+                        try:
+                            got, mod = special(model, ni, no, off, mode,
+                                               direction, xs, pc)
+                        except (Undecided, PyRaise) as e:
+                            bad = bad or ('%s %d -> %d, offset %d, input %s: '
+                                          '%s' % (direction, ni, no, off, xs,
+                                                  e))
+                            continue
+                        n_sp += 1
+                        want = [sum(Fr(m) * x for m, x in zip(row, xs)) + c
+                                for row, c in zip(Mr, cr)]
+                        if mod and bad is None:
+                            bad = '%s %d -> %d, offset %d, input %s: %s' % (
+                                direction, ni, no, off, xs, mod)
+                        if got != want and bad is None:
+                            bad = ('%s %d -> %d, offset %d, pad_const %d, '
+                                   'input %s: result %s, the %r rule gives '
+                                   '%s' % (direction, ni, no, off, pc, xs,
+                                           [str(v) for v in got], mode,
+                                           [str(v) for v in want]))
+        cons = 'resize_array[%s]:special inputs' % mode
+        if bad:
+            rep.violation('R2s', cons, bad, NUM, fn.lineno)
+        else:
+            rep.holds('R2s', cons, 'zero, constant and one-hot inputs give '
+                      'the value of the extracted affine map; the input '
+                      'array is unchanged')
+    rep.floor('R2s', 'special-input evaluations', n_sp, 150)
     # extension then cropping is the identity
     for mode in modes:
         try:
@@ -700,6 +792,7 @@ def _nd(rep, model, thorough):
                 offs = [range(abs(so - si) + 1) if so != si else range(3)
                         for si, so in zip(shape_in, shape_out)]
                 bad = []
+                und = None
                 cnt = 0
                 for offset in itertools.product(*offs):
                     # the offset of an axis that keeps its size is ignored
@@ -733,6 +826,9 @@ def _nd(rep, model, thorough):
                     except PyRaise as e:
                         bad.append('offset %r: raises %s' % (offset, e.name))
                         continue
+                    except (Undecided, Fork) as e:
+                        und = und or 'offset %r: %s' % (offset, e)
+                        continue
                     if not isinstance(out, NA) or out.a.shape != want.shape:
                         bad.append('offset %r: result %r' % (offset, out))
                         continue
@@ -747,7 +843,9 @@ def _nd(rep, model, thorough):
                 cons = 'resize_array[%s,%s,%s->%s]' % (
                     mode, direction, 'x'.join(map(str, shape_in)),
                     'x'.join(map(str, shape_out)))
-                if bad:
+                if und:
+                    rep.undecided('R5', cons, und, NUM, fn.lineno)
+                elif bad:
                     rep.violation('R5', 'resize_array[%s]' % mode,
                                   '%s: %d of %d offsets fail; first: %s'
                                   % (cons, len(bad), cnt, bad[0]), NUM,
